@@ -520,6 +520,119 @@ theorem C05.flatten_inverse_adj (cj : K →+* K) (I : K) (R S : Space K) :
     refine sum_congr rfl fun i _ => ?_
     ring
 
+/-- RealPart(S): on a real space it is its own adjoint; on a complex space the adjoint is
+ComplexEmbedding(S.real_space, 1) and the REAL-PART identity Re⟨Re x, y⟩ = Re⟨x, y⟩ holds
+(every additive conjugation-invariant `φ`), for all sizes and real weights. -/
+theorem C05.realpart_adj (cj : K →+* K) (hcj : ∀ a, cj (cj a) = a) (I : K) (S R : Space K) :
+    LeafOK cj I (.realPart S R) := by
+  intro t' hw ha
+  obtain ⟨rfl, hW, h2⟩ := hw
+  by_cases hr : S.real = true
+  · simp [Leaf.adj, hr] at ha; subst ha
+    simp only [Leaf.dom, Leaf.ran, Impl.run, Leaf.run, Leaf.needRe]
+    refine ⟨fun x _ _ j i => cj_reK cj hcj _, fun y _ _ j i => cj_reK cj hcj _, ?_⟩
+    intro φ _ x y hx hy
+    have ex : (fun j i => reK cj (x j i)) = x := by
+      funext j i; exact reK_of_real cj (hx hr j i) h2
+    have ey : (fun j i => reK cj (y j i)) = y := by
+      funext j i; exact reK_of_real cj (hy rfl j i) h2
+    rw [ex, ey]; rfl
+  · simp [Leaf.adj, hr] at ha; subst ha
+    simp only [Leaf.dom, Leaf.ran, Impl.run, Leaf.run, Leaf.needRe, if_true]
+    have h1 : reK cj (1 : K) = 1 := reK_of_real cj (map_one cj) h2
+    have h0 : imK cj I (1 : K) = 0 := imK_of_real cj I (map_one cj)
+    simp only [h1, h0, one_mul, zero_mul, mul_zero, add_zero]
+    refine ⟨fun x _ _ j i => cj_reK cj hcj _, fun y _ h => by simp [hr] at h, ?_⟩
+    intro φ hφ x y _ hy
+    have hyr : ∀ j i, cj (y j i) = y j i := hy rfl
+    have key : dot cj { S with real := true } (fun j i => reK cj (x j i)) y =
+        (dot cj S x y + cj (dot cj S x y)) / 2 := by
+      simp only [dot_eq, map_sum, map_mul, hcj, hW _ _, hyr _ _, ← sum_add_distrib, sum_div]
+      refine sum_congr rfl fun j _ => sum_congr rfl fun i _ => ?_
+      simp only [reK]; ring
+    rw [key]
+    exact phi_re cj φ (hφ (by simpa using hr)) h2 _
+
+/-- ImagPart(S): zero adjoint on a real space; on a complex space the adjoint is
+ComplexEmbedding(S.real_space, i) and Re⟨Im x, y⟩ = Re⟨x, i·y⟩. -/
+theorem C05.imagpart_adj (cj : K →+* K) (hcj : ∀ a, cj (cj a) = a) (I : K) (S R : Space K) :
+    LeafOK cj I (.imagPart S R) := by
+  intro t' hw ha
+  obtain ⟨rfl, hW, h2, hcx⟩ := hw
+  by_cases hr : S.real = true
+  · simp [Leaf.adj, hr] at ha; subst ha
+    simp only [Leaf.dom, Leaf.ran, Impl.run, Leaf.run, Leaf.needRe]
+    refine ⟨fun x hx _ j i => by rw [imK_of_real cj I (hx hr j i)]; simp,
+      fun y _ => mem_zero cj, ?_⟩
+    intro φ _ x y hx _
+    have ex : (fun j i => imK cj I (x j i)) = fun _ _ => 0 := by
+      funext j i; exact imK_of_real cj I (hx hr j i)
+    rw [ex, dot_zero_left, dot_zero_right]
+  · have hcx := hcx (by simpa using hr)
+    simp [Leaf.adj, hr] at ha; subst ha
+    simp only [Leaf.dom, Leaf.ran, Impl.run, Leaf.run, Leaf.needRe, if_true]
+    have h1 : reK cj I = 0 := by simp [reK, hcx.cjI]
+    have h0 : imK cj I I = 1 := by
+      simp only [imK, hcx.cjI]
+      have : (-I - I) * I = 2 := by
+        have := hcx.II
+        linear_combination (-2 : K) * this
+      rw [this]; exact div_self h2
+    simp only [h1, h0, one_mul, zero_mul, zero_add]
+    refine ⟨fun x _ _ j i => cj_imK cj hcj hcx.cjI _, fun y _ h => by simp [hr] at h, ?_⟩
+    intro φ hφ x y _ hy
+    have hyr : ∀ j i, cj (y j i) = y j i := hy rfl
+    have key : dot cj { S with real := true } (fun j i => imK cj I (x j i)) y =
+        (dot cj S x (fun j i => I * y j i) + cj (dot cj S x (fun j i => I * y j i))) / 2 := by
+      simp only [dot_eq, map_sum, map_mul, hcj, hW _ _, hyr _ _, hcx.cjI, map_neg,
+        ← sum_add_distrib, sum_div]
+      refine sum_congr rfl fun j _ => sum_congr rfl fun i _ => ?_
+      simp only [imK]; ring
+    rw [key]
+    exact phi_re cj φ (hφ (by simpa using hr)) h2 _
+
+/-- ComplexEmbedding(S, s): on a complex space it is the scaling by `s` (adjoint: conj s); on
+a real space the adjoint is `Re(s)·RealPart + Im(s)·ImagPart` (with the two shortcuts of the
+code for real and purely imaginary `s`) and Re⟨s·x, y⟩ = ⟨x, Re(s) Re y + Im(s) Im y⟩. -/
+theorem C05.cembed_adj (cj : K →+* K) (hcj : ∀ a, cj (cj a) = a) (I : K) (S C : Space K) (s : K) :
+    LeafOK cj I (.cembed S C s) := by
+  intro t' hw ha
+  obtain ⟨rfl, hreal⟩ := hw
+  by_cases hr : S.real = true
+  · obtain ⟨hW, h2, hcx⟩ := hreal hr
+    have cq := cj_imK cj hcj hcx.cjI s
+    simp only [Leaf.adj, hr, if_true] at ha
+    simp only [Leaf.dom, Leaf.ran, Leaf.run, Leaf.needRe, hr, if_true]
+    split_ifs at ha with e1 e2
+    · simp at ha; subst ha
+      have hs : cj s = s := by
+        have h := e1
+        rw [reK, div_eq_iff h2] at h
+        linear_combination h
+      have hq : imK cj I s = 0 := imK_of_real cj I hs
+      refine cembed_pair cj hcj I S s hr hW h2 hcx _ trivial _ (fun y => ?_)
+      funext j i; simp [Impl.run, Leaf.run, hq]
+    · simp at ha; subst ha
+      have hs : cj s = -s :=
+        calc cj s = cj (I * imK cj I s) := by rw [e2]
+          _ = -I * imK cj I s := by rw [map_mul, hcx.cjI, cq]
+          _ = -s := by rw [neg_mul, e2]
+      have hp : reK cj s = 0 := by simp [reK, hs]
+      refine cembed_pair cj hcj I S s hr hW h2 hcx _ trivial _ (fun y => ?_)
+      funext j i; simp [Impl.run, Leaf.run, hp]
+    · simp at ha; subst ha
+      refine cembed_pair cj hcj I S s hr hW h2 hcx _ trivial _ (fun y => ?_)
+      funext j i; simp [Impl.run, Leaf.run]
+  · have hS : ({ S with real := false } : Space K) = S := by
+      cases S; simp_all
+    rw [hS] at ha ⊢
+    simp [Leaf.adj, hr] at ha; subst ha
+    simp only [Leaf.dom, Leaf.ran, Impl.run, Leaf.run, Leaf.needRe, hr]
+    simp only [Bool.false_eq_true, if_false]
+    refine ⟨fun x _ h => absurd h hr, fun y _ h => absurd h hr, ?_⟩
+    intro φ _ x y _ _
+    rw [dot_smul_left, dot_smul_right cj hcj]
+
 /-- Every modelled leaf satisfies its adjoint contract under its conditions `Leaf.WT`
 (for `opaque`, RealPart/ImagPart/ComplexEmbedding and ComponentProjection(Adjoint) the
 contract itself is the condition: these are established by the matrix oracle only). -/
@@ -537,9 +650,9 @@ theorem C05.leaf_sound (cj : K →+* K) (hcj : ∀ a, cj (cj a) = a) (I : K) : L
   | multiply d r v => exact C05.multiply_adj cj hcj I d r v
   | multField S F v => exact C05.multfield_adj cj hcj I S F v
   | inner S F v => exact C05.innerprod_adj cj hcj I S F v
-  | realPart S R => intro t' hw ha; exact hw t' ha
-  | imagPart S R => intro t' hw ha; exact hw t' ha
-  | cembed S C s => intro t' hw ha; exact hw t' ha
+  | realPart S R => exact C05.realpart_adj cj hcj I S R
+  | imagPart S R => exact C05.imagpart_adj cj hcj I S R
+  | cembed S C s => exact C05.cembed_adj cj hcj I S C s
   | matrix d r M => exact C05.matrix_adj cj hcj I d r M
   | pwInner V X G w v => exact C05.pointwise_inner_adj cj hcj I V X G w v
   | pwInnerAdj X V G w v => exact C05.pointwise_inner_adjoint_adj cj hcj I X V G w v
